@@ -63,6 +63,30 @@ Definition remove_tags (tags R : list tag) : list tag * bool := remove_tags_go t
 Definition flatten (ls : list (list tag)) : list tag :=
   flat_map (filter (fun t => negb (is_nil t))) ls.
 
+(* ---- splitTagList (flag value -> TagList): split at commas, strings.TrimSpace each piece.
+   Byte-wise model: exact for flag values whose pieces do not start or end with a NON-ASCII Unicode
+   white space character (TrimSpace also strips U+0085, U+00A0, U+2000.. etc.) ---- *)
+Definition is_space (c : N) : bool :=
+  N.eqb c 32 || N.eqb c 9 || N.eqb c 10 || N.eqb c 11 || N.eqb c 12 || N.eqb c 13.
+Fixpoint trim_left (s : bytes) : bytes :=
+  match s with
+  | [] => []
+  | c :: r => if is_space c then trim_left r else s
+  end.
+Definition trim (s : bytes) : bytes := rev (trim_left (rev (trim_left s))).
+Fixpoint split_comma (s : bytes) : list bytes :=
+  match s with
+  | [] => [[]]
+  | c :: r => if N.eqb c 44 then [] :: split_comma r
+              else match split_comma r with
+                   | p :: ps => (c :: p) :: ps
+                   | [] => [[c]]
+                   end
+  end.
+Definition split_tag_list (s : bytes) : list tag := map trim (split_comma s).
+(* TagLists.Set: one list per occurrence of the flag *)
+Definition parse_flags (vals : list bytes) : list (list tag) := map split_tag_list vals.
+
 (* ---- changeTags: the new tag list and the changed flag ---- *)
 Definition change_tags (tags setT addT remT : list tag) : list tag * bool :=
   match setT with
@@ -153,6 +177,7 @@ Inductive case :=
 | KAdd (tags A : list tag) (obs : list tag) (changed : bool)
 | KRemove (tags R : list tag) (obs : list tag) (changed : bool)
 | KFlatten (ls : list (list tag)) (obs : list tag)
+| KSplit (s : bytes) (obs : list tag)
 | KChange (sn : snap) (setT addT remT : list tag) (obs : fate)
 | KRun (repo : list snap) (sel : list bool) (setL addL remL : list (list tag))
        (extra : nat)           (* snapshots afterwards that continue no snapshot of [repo] *)
@@ -194,6 +219,7 @@ Definition oracle_code (c : case) : nat :=
   | KAdd tags A obs _ => if set_eqb obs (tags ++ A) then 0 else 6
   | KRemove tags R obs _ => if set_eqb obs (diff tags R) then 0 else 6
   | KFlatten ls obs => if tags_eqb obs (flat_map (filter (fun t => negb (is_nil t))) ls) then 0 else 6
+  | KSplit s obs => if tags_eqb obs (split_tag_list s) then 0 else 6
   | KChange sn setT addT remT obs =>
       match obs with
       | Lost => 2
@@ -246,6 +272,7 @@ Definition model_agrees (c : case) : bool :=
   | KRemove tags R obs ch =>
       let '(t, c') := remove_tags tags R in andb (perm_eqb obs t) (Bool.eqb ch c')
   | KFlatten ls obs => tags_eqb obs (flatten ls)
+  | KSplit s obs => tags_eqb obs (split_tag_list s)
   | KChange sn setT addT remT obs => fate_eqb (negb (is_nil setT)) obs (snap_fate sn setT addT remT)
   | KRun repo sel setL addL remL extra obs =>
       andb (Nat.eqb extra 0) (outcome_eqb (negb (is_nil setL)) obs (run_tag repo sel setL addL remL))
